@@ -76,7 +76,11 @@ def scenarios(tier):
 
 
 def families(tier):
-    return scenarios(tier)
+    out = scenarios(tier)
+    # the grammar-generated corpus shared by the bus properties (vsched/gen.py), judged by this property's oracle
+    from .. import gen
+    out += gen.family('C04', tier, params=dict(k=0), timeouts=(None,))
+    return out
 
 
 def trigger(spec, res):
